@@ -2,7 +2,7 @@
 import muxgen
 import muxprop
 import muxreal
-from muxprop import real, model_cmds, model_result  # noqa: F401
+from muxprop import real  # noqa: F401
 from catalog import dec, enc, fn1, fn2
 
 PROPERTY = 'C13'
@@ -24,13 +24,15 @@ KNOWN_MATCHERS = {}
 def failing_op(rng):
     k, r = rng.choice([(2, 0), (2, 1), (3, 0), (3, 2), (1, 0), (4, 1)])
     kind = rng.choice(['map', 'map', 'filter', 'scan', 'scan_reduce', 'starmap'])
+    # the exception the user function raises: any class (an operator must not mistake it for one of its own)
+    f = ['raise_if_mod', k, r] + rng.choice([[], [], ['TypeError'], ['KeyError'], ['ZeroDivisionError'], ['AttributeError'], ['IndexError']])
     if kind == 'map':
-        return [['map', ['raise_if_mod', k, r]]], (k, r), 'map'
+        return [['map', f]], (k, r), 'map'
     if kind == 'starmap':
-        return [['map', ['pair_self']], ['starmap', ['raise_if_mod', k, r]]], (k, r), 'starmap'
+        return [['map', ['pair_self']], ['starmap', f]], (k, r), 'starmap'
     if kind == 'filter':
-        return [['filter', ['raise_if_mod', k, r]]], (k, r), 'filter'
-    return [['scan', ['raise_if_mod', k, r], 0, kind == 'scan_reduce', None]], (k, r), 'scan'
+        return [['filter', f]], (k, r), 'filter'
+    return [['scan', f, 0, kind == 'scan_reduce', None]], (k, r), 'scan'
 
 
 def _cases(tier, rng):
@@ -53,6 +55,11 @@ def _cases(tier, rng):
                     yield {'kind': 'mux', 'term': [['scan', ['add'], seed, red, None], h], 'items': items, 'fail': [1, 1], 'op': 'typed'}
             # under roll (slot reuse): compared with the model only (the oracle below handles flat and group_by pipelines)
             yield {'kind': 'mux', 'term': [['roll', 2, 2, [['scan', ['add'], seed, red, None], ['ignore']]]], 'items': [1, 2, half, 5, half, 7]}
+    # a user function with default arguments under starmap, raising each kind of exception (Python only: judged by the oracle)
+    for exc in ('ValueError', 'TypeError', 'KeyError'):
+        for k, rr in ((2, 0), (3, 1)):
+            yield {'kind': 'mux', 'term': [['map', ['pair_self']], ['starmap', ['raise_default', k, rr, exc]], ['route'], ['to_list']],
+                   'items': [1, 2, 3, 4, 6], 'fail': [k, rr], 'op': 'starmap_default', 'exc': exc, 'no_model': True}
     for _ in range({'quick': 150, 'thorough': 1500, 'search': 80}[tier]):
         items = [rng.choice([half, rng.randint(-5, 9), rng.randint(-5, 9)]) for _ in range(rng.choice([1, 2, 3, 5, 8]))]
         h = rng.choice([['ignore'], ['route'], ['err_map', -1], None])
@@ -113,7 +120,17 @@ def shrink_candidates(case):
         yield c
 
 
+def model_cmds(case):
+    return [] if case.get('no_model') else muxprop.model_cmds(case)
+
+
+def model_result(case, ans):
+    return {} if case.get('no_model') else muxprop.model_result(case, ans)
+
+
 def compare(case, r, m):
+    if case.get('no_model'):
+        return None
     d = muxprop.compare(case, r, m)
     if d:
         return d
@@ -138,6 +155,19 @@ def _strip(term):
 def _oracle(case, r):
     if 'harness_exc' in r:
         return 'real code raised: ' + r['harness_exc']
+    if case.get('op') == 'starmap_default':
+        xs = [dec(x) for x in case['items']]
+        k, rr = case['fail']
+        want = [2 * x for x in xs if x % k != rr]
+        fails = [x for x in xs if x % k == rr]
+        got = [o['i'] for c in r['chunks'] for o in c if isinstance(o, dict) and 'i' in o]
+        dead = r.get('dead', [])
+        if r.get('raised') or muxprop.has_fatal(r['chunks']):
+            return 'starmap with a handled failing user function ended with an error: %s' % str(r['chunks'])[:300]
+        if got != [{'l': want}] or dead != [case['exc']] * len(fails) + ['<completed>']:
+            return ('starmap(f) with f(a, b=1, c=0) raising %s on %s, then the error router and to_list, over %s: emitted %s, dead letter %s; '
+                    'expected %s and %d routed errors' % (case['exc'], fails, xs, str(got)[:200], dead, want, len(fails)))
+        return None
     if case.get('outer_first') and not r.get('raised'):
         xs = [dec(x) for x in case['items']]
         first = [i for i, x in enumerate(xs) if x % 3 == 0]
@@ -168,6 +198,10 @@ def _oracle(case, r):
     # 'typed': scan with an int seed; the items that fail are the floats (the typed state array rejects the float accumulator)
     is_fail = (lambda x: isinstance(x, float)) if typed else (lambda x: x % k == rr)
     errname = 'TypeError' if typed else 'ValueError'
+    for st_ in muxgen.walk(t):
+        for a in st_[1:]:
+            if isinstance(a, list) and a[:1] == ['raise_if_mod'] and len(a) > 3:
+                errname = a[3]      # the exception class the failing user function raises
     fails = [x for x in xs if is_fail(x)]
     if not hidx:
         # unhandled: on_error at the first failing item, nothing after
@@ -224,7 +258,7 @@ def _oracle(case, r):
     else:
         # error.map: the stage right after the handler sees, per source position, the mapped value in place
         if len(pipe) == hidx[0] + 1 and not grouped and case['op'] in ('map', 'starmap'):
-            mapped = h[1] if h[0] == 'err_map' else 'ValueError'
+            mapped = h[1] if h[0] == 'err_map' else errname
             want = [[]] + [[{'i': mapped}] if is_fail(x) else [{'i': enc((x, x)[0])}] for x in xs] + [[]]
             if case['op'] == 'starmap':
                 return None
